@@ -54,6 +54,10 @@ Definition factor (src dst : usys) (d : dim) : Qc :=
   * Qcpowz (si_time (ut src) / si_time (ut dst)) (dT d)
   * Qcpowz (si_amount (uq src) / si_amount (uq dst)) (dQ d).
 
+Definition dim_add (a b : dim) : dim := {| dS := dS a + dS b; dT := dT a + dT b; dQ := dQ a + dQ b |}%Z.
+Definition dim_opp (a : dim) : dim := {| dS := - dS a; dT := - dT a; dQ := - dQ a |}%Z.
+Definition dim_scal (k : Z) (a : dim) : dim := {| dS := k * dS a; dT := k * dT a; dQ := k * dQ a |}%Z.
+
 Record quantity := { qv : Qc; qu : usys; qd : dim }.
 
 Definition SI (q : quantity) : Qc := qv q * scale (qu q) (qd q).
